@@ -57,6 +57,18 @@ prop('C18', level='proof', modules=['Polyseed.Props.C18'], suites=[],
      note=PROOF_NOTE + 'Modelled, not verified: dependency.c, polyseed_create. "No other source of randomness or time" is additionally checked by the undefined-symbol inventory of the objects (S-syms).',
      technique='Lean 4 proof (event theorems over all random/clock outputs) + API-history correspondence with function identities',
      assumptions=[])
+prop('C03', level='proof', modules=['Polyseed.Props.C03'], suites=['pack'],
+     api=dict(cone=['encode', 'create', 'dump', 'load'], weights=dict(roundtrip=6, errors=1, storage=1)),
+     text='Theorems dataToPoly_eq_spec (the chunk loops of polyseed_data_to_poly compute exactly the README layout: base-1024 digits of the 150-bit secret, one feature/birthday bit each, for EVERY well-formed seed - loops unrolled symbolically, 15 equations by omega), checkValue_eq_spec (word 1 = check value over GF(2)[x]/(x^11+x^2+1) as defined in the spec), encodeCoeffs_eq_spec (coin XORed into word 2), encodeTmp_eq_spec / encode_eq_spec (joined by the separator, NFC by the injected function iff the language composes), encode_pure, flags_as_published (kernel-evaluated on the regenerated registry), the published English vector. Correspondence: 165 single-bit seeds, pairs, random seeds through data_to_poly/poly_to_data; encode on the real code compared with an independent Python rendering of the format.',
+     note=PROOF_NOTE + 'Modelled, not verified: gf.c, polyseed_encode. Spec (Model/Spec.lean) is written from README.md; "an independent implementation" is represented by Spec plus vlib/spec.py.',
+     technique='Lean 4 proof (symbolic unrolling of the packing loops + omega; spec written from the README) + correspondence on packing and encode',
+     assumptions=['canonical seed (proved invariant, C13)'])
+prop('C17', level='proof', modules=['Polyseed.Props.C17'], suites=[],
+     api=dict(cone=['encode'], weights=dict(roundtrip=6, variants=1), sessions=3), extra='extra_c17',
+     text='Theorems maxPhrase_lt_all (for every registered language 16*longest word + 15*separator < POLYSEED_STR_SIZE: kernel-evaluated on the tables and the constant of the CURRENT tree), encodeTmp_length_le (every phrase, all seeds and coins, is at most that long), encode_no_overflow (the str_tmp overflow outcome of the model is unreachable), encode_output_fits (returned size = length of the output < buffer size), lazyNfkd_no_truncation. The extremal witness seed of every language is encoded on the real code under ASan with the caller buffer against a guard page, and decoded back.',
+     note=PROOF_NOTE + 'The composed-form bound assumes the injected NFC does not lengthen a phrase (hypothesis hnfc; observed on every encode of the run).',
+     technique='Lean 4 proof (kernel-evaluated per-position maxima of the regenerated tables) + extremal witness seeds on the real code',
+     assumptions=['NFC composition does not lengthen a string'])
 prop('C06', level='proof', modules=['Polyseed.Props.C06'], suites=['store'],
      text='Theorems store_bytes, load_store, load_ok_iff (for EVERY list of 32 bytes: accepted iff it is byte-for-byte the image of a canonical supported seed), store_of_loaded, load_status (precedence memory > format > checksum > unsupported), dataLoad_format_iff. polyseed_data_store/load are compared with the model on valid images, field-wise mutations (exhaustive in the thorough tier) and random buffers.',
      note=PROOF_NOTE + 'Modelled, not verified: storage.c and polyseed_load (hand transcription).',
@@ -177,6 +189,62 @@ def run_api(ctx, pid, viol, stats, weights=None, sessions=None, nops=None, varia
     st['wall'] += time.time() - t0
 
 
+def witness_seed(ctx, li):
+    """C17: a seed whose phrase in language li puts a longest admissible word at every data position
+    (feature bits kept supported by choosing even indices at words 2-6); returns (secret19, birthday, features, coin, predicted_len)"""
+    words = ctx.langs.words(li)
+    order = sorted(range(len(words)), key=lambda i: -len(words[i]))
+    longest = order[0]
+    even = next(i for i in order if i % 2 == 0)
+    cs = [even] * 5 + [longest] * 10
+    coin = cs[0] ^ longest   # word 2 shows the longest word
+    sec, b, f, _ = spec.unpack([0] + cs)
+    p = spec.poly(sec, b, f, coin)
+    sep = ctx.langs.langs[li]['separator']
+    n = sum(len(words[c]) for c in p) + 15 * len(sep)
+    return sec, b, f, coin, n
+
+
+def extra_c17(ctx, pid, viol, stats):
+    """encode the extremal witness seeds of every language on the real code (ASan + guard page behind the caller's buffer) and decode the result"""
+    t0 = time.time()
+    st = stats.setdefault('witness', dict(evaluations=0, distinct=set(), samples=[], variants=['asan'], wall=0.0, exhaustive=True, mismatches=0, hist={},
+                                          note='per language: the seed with a longest word at every data position (and at word 2 via the coin), loaded, encoded, decoded back'))
+    strsize = ctx.langs.consts['STR_SIZE']
+    for li in range(ctx.langs.n):
+        sec, b, f, coin, n = witness_seed(ctx, li)
+        script = [suites.INJECT, 'load 0 ' + spec.storage(sec, b, f).hex(), 'encode 0 %d %d' % (li, coin)]
+        res = core.run_pair(ctx.tree, 'asan', script, 'witness')
+        st['evaluations'] += res.ops
+        for op in res.c_ops:
+            st['distinct'].add(op.head)
+        if li == 2:
+            st['samples'].append(script)
+        enc = [op for op in res.c_ops if op.head.startswith('encode')]
+        msg = None
+        if res.crash:
+            msg = 'language %d: encoding the extremal seed (decomposed phrase of %d bytes, POLYSEED_STR_SIZE = %d) crashed the real code: %s' % (li, n, strsize, res.crash[:800])
+        elif enc and enc[0].kv('size') is not None and int(enc[0].kv('size')) >= strsize:
+            msg = 'language %d: encoded phrase has %s bytes, not shorter than POLYSEED_STR_SIZE = %d' % (li, enc[0].kv('size'), strsize)
+        elif n >= strsize:
+            msg = 'language %d: the decomposed phrase of the extremal seed has %d bytes, not shorter than POLYSEED_STR_SIZE = %d (the real code did not crash on it)' % (li, n, strsize)
+        if msg:
+            viol.append(Violation('oracle', 'strsize:lang%d' % li, msg, script=script, suite='witness', variant='asan', found_input=True))
+        elif enc and enc[0].kv('str'):
+            # feed it back: must decode without truncation to the same seed
+            s2 = script + ['decodex 1 %d %d %s' % (coin, li, enc[0].kv('str')), 'store 0', 'store 1']
+            r2 = core.run_pair(ctx.tree, 'asan', s2, 'witness2')
+            st['evaluations'] += r2.ops
+            stores = [op.kv('buf') for op in r2.c_ops if op.head.startswith('store')]
+            dec = [op for op in r2.c_ops if op.head.startswith('decodex')]
+            if r2.crash or not dec or dec[0].kv('st') != '0' or len(stores) != 2 or stores[0] != stores[1]:
+                viol.append(Violation('oracle', 'feedback:lang%d' % li, 'language %d: the extremal phrase does not decode back to its seed (status %s)' % (li, dec[0].kv('st') if dec else '?'),
+                                      script=s2, suite='witness', variant='asan', found_input=True))
+            for (i, cb, mb) in r2.mismatches[:2]:
+                viol.append(Violation('correspondence', 'corr:witness', 'extremal seed, language %d: code and model disagree' % li, script=s2, expected=mb, observed=cb, suite='witness', variant='asan'))
+    st['wall'] = time.time() - t0
+
+
 def context_script(script, res, i):
     """script lines needed to reproduce op i: for stateless unit ops just the line, else the prefix"""
     head = res.c_ops[i].head
@@ -243,7 +311,7 @@ def check(ctx, pid):
         if P.get('api') is not None and os.path.exists(core.driver_path()) and ctx.langs is not None:
             run_api(ctx, pid, viol, stats, **P['api'])
         if P.get('extra'):
-            P['extra'](ctx, pid, viol, stats)
+            globals()[P['extra']](ctx, pid, viol, stats)
     return report(ctx, pid, P, viol, stats, proof, t0)
 
 
